@@ -61,6 +61,9 @@ impl ResolutionState
 {
     pub fn merge(&mut self, other: ResolutionState)
     {
+        #[cfg(hlorenzi_customasm_verif)]
+        crate::verif::note_merge(matches!(other, ResolutionState::Resolved));
+
         if let ResolutionState::Unresolved = other
         {
             *self = ResolutionState::Unresolved;
@@ -157,6 +160,14 @@ pub fn resolve_once(
             iteration_index,
             if is_last_iteration { "(final) " } else { "" });
     }
+
+    #[cfg(hlorenzi_customasm_verif)]
+    crate::verif::emit("pass", vec![
+        ("n", crate::verif::V::I(iteration_index as i128)),
+        ("first", crate::verif::V::B(is_first_iteration)),
+        ("last", crate::verif::V::B(is_last_iteration)),
+        ("budget", crate::verif::V::I(opts.max_iterations as i128)),
+    ]);
 
     let mut resolution_state = asm::ResolutionState::Resolved;
 
@@ -278,7 +289,136 @@ pub fn resolve_once(
                         &ctx)?);
             }
         }
+
+        #[cfg(hlorenzi_customasm_verif)]
+        verif_emit_node(decls, defs, &ctx);
     }
 
+    #[cfg(hlorenzi_customasm_verif)]
+    crate::verif::emit("endpass", vec![
+        ("n", crate::verif::V::I(iteration_index as i128)),
+        ("st", crate::verif::V::S(
+            if let asm::ResolutionState::Resolved = resolution_state { "R" } else { "U" }.to_string())),
+    ]);
+
     Ok(resolution_state)
+}
+
+
+/// Emits one event per visited node, after the node's resolver has
+/// stored its result: where the node was visited (bank, bit cursor),
+/// what is now stored for it, and the state it reported.
+#[cfg(hlorenzi_customasm_verif)]
+fn verif_emit_node(
+    decls: &asm::ItemDecls,
+    defs: &asm::ItemDefs,
+    ctx: &ResolverContext)
+{
+    use crate::verif::V;
+
+    if !crate::verif::active()
+    {
+        return;
+    }
+
+    let mut fields: Vec<(&'static str, V)> = Vec::new();
+
+    let span_of = |span: diagn::Span| -> (V, V)
+    {
+        (V::I(span.file_handle as i128),
+        match span.location() { Some(l) => V::I(l.0 as i128), None => V::Null })
+    };
+
+    let (kind, span) = match ctx.node
+    {
+        asm::ResolverNode::None => return,
+
+        asm::ResolverNode::Symbol(ast_symbol) =>
+        {
+            let item_ref = ast_symbol.item_ref.unwrap();
+            let symbol = defs.symbols.get(item_ref);
+            let decl = decls.symbols.get(item_ref);
+            fields.push(("sym", V::I(item_ref.0 as i128)));
+            fields.push(("name", V::S(ast_symbol.name.clone())));
+            fields.push(("depth", V::I(decl.depth as i128)));
+            fields.push(("value", crate::verif::value_of(&symbol.value)));
+            fields.push(("flag", V::B(symbol.resolved)));
+            fields.push(("static", V::B(symbol.value_statically_known)));
+            match ast_symbol.kind
+            {
+                asm::AstSymbolKind::Constant(_) => ("const", ast_symbol.decl_span),
+                asm::AstSymbolKind::Label => ("label", ast_symbol.decl_span),
+            }
+        }
+
+        asm::ResolverNode::Instruction(ast_instr) =>
+        {
+            let instr = defs.instructions.get(ast_instr.item_ref.unwrap());
+            fields.push(("item", V::I(instr.item_ref.0 as i128)));
+            fields.push(("bits", crate::verif::bits_of(&instr.encoding)));
+            fields.push(("size", match instr.encoding.size { Some(s) => V::I(s as i128), None => V::Null }));
+            fields.push(("flag", V::B(instr.resolved)));
+            fields.push(("static", V::B(instr.encoding_statically_known)));
+            fields.push(("ncand", V::I(instr.matches.len() as i128)));
+            ("instr", ast_instr.span)
+        }
+
+        asm::ResolverNode::DataElement(ast_data, elem_index) =>
+        {
+            let elem = defs.data_elems.get(ast_data.item_refs[elem_index]);
+            fields.push(("item", V::I(elem.item_ref.0 as i128)));
+            fields.push(("elem", V::I(elem_index as i128)));
+            fields.push(("width", match ast_data.elem_size { Some(s) => V::I(s as i128), None => V::Null }));
+            fields.push(("bits", crate::verif::bits_of(&elem.encoding)));
+            fields.push(("size", match elem.encoding.size { Some(s) => V::I(s as i128), None => V::Null }));
+            fields.push(("flag", V::B(elem.resolved)));
+            fields.push(("static", V::B(elem.encoding_statically_known)));
+            ("data", ast_data.elems[elem_index].span())
+        }
+
+        asm::ResolverNode::Res(ast_res) =>
+        {
+            let res = defs.res_directives.get(ast_res.item_ref.unwrap());
+            fields.push(("res", V::I(res.reserve_size as i128)));
+            ("res", ast_res.header_span)
+        }
+
+        asm::ResolverNode::Align(ast_align) =>
+        {
+            let align = defs.align_directives.get(ast_align.item_ref.unwrap());
+            fields.push(("align", V::I(align.align_size as i128)));
+            ("align", ast_align.header_span)
+        }
+
+        asm::ResolverNode::Addr(ast_addr) =>
+        {
+            let addr = defs.addr_directives.get(ast_addr.item_ref.unwrap());
+            fields.push(("addr", V::S(addr.address.verif_to_decimal())));
+            ("addr", ast_addr.header_span)
+        }
+
+        asm::ResolverNode::Assert(ast_assert) =>
+            ("assert", ast_assert.header_span),
+    };
+
+    let (file, at) = span_of(span);
+
+    let mut all: Vec<(&'static str, V)> = vec![
+        ("kind", V::S(kind.to_string())),
+        ("file", file),
+        ("at", at),
+        ("bank", V::I(ctx.bank_ref.0 as i128)),
+        ("pos", V::I(ctx.bank_data.cur_position as i128)),
+        ("st", match crate::verif::take_merge()
+        {
+            Some(true) => V::S("R".to_string()),
+            Some(false) => V::S("U".to_string()),
+            None => V::Null,
+        }),
+    ];
+
+    all.append(&mut fields);
+    all.append(&mut crate::verif::take_notes());
+
+    crate::verif::emit("node", all);
 }
